@@ -11,17 +11,25 @@ Proof. exact inv_reachable. Qed.
 (** (2) [u] after a change returns exactly the text before that change ... *)
 Theorem C07_undo_prev :
   forall (s : ustate) (t : text),
-    t <> u_buf s -> u_buf (ustep (ustep s (OCmd t false)) OUndo) = u_buf s.
+    t <> u_buf s -> u_buf (ustep (ustep s (OCmd None t false)) OUndo) = u_buf s.
 Proof. exact undo_after_change. Qed.
 
 (** ... and an insert session (consecutive character inserts) is one change. *)
 Theorem C07_undo_insert_session :
   forall (s : ustate) (t : text) (ts : list text),
     top_merging (u_undo s) = false -> t <> u_buf s ->
-    u_buf (ustep (fold_left (fun s t => ustep s (OCmd t true)) ts (ustep s (OCmd t true))) OUndo)
+    u_buf (ustep (fold_left (fun s t => ustep s (OCmd None t true)) ts (ustep s (OCmd None t true))) OUndo)
     = u_buf s.
 Proof. exact undo_insert_session. Qed.
 
+(** ... and so is a block insert: the typed text [t] plus the copies [p] that
+    leaving the session makes on the other lines of the block. *)
+Theorem C07_undo_block_insert :
+  forall (s : ustate) (t p : text),
+    top_merging (u_undo s) = false -> t <> u_buf s ->
+    u_buf (ustep (ustep (ustep s (OCmd None t true)) (OCmd (Some p) p false)) OUndo) = u_buf s.
+Proof. exact undo_block_insert. Qed.
+Print Assumptions C07_undo_block_insert.
 (** (3) Enough [u]s return the original input. *)
 Theorem C07_undo_all :
   forall (orig : text) (n : nat) (s : ustate),
@@ -48,12 +56,12 @@ Proof. exact no_new_states. Qed.
     that is not [u] leaves the text alone. *)
 Theorem C07_redo_after_change_noop :
   forall (s : ustate) (t : text) (ci : bool),
-    u_buf (ustep (ustep s (OCmd t ci)) ORedo) = t.
+    u_buf (ustep (ustep s (OCmd None t ci)) ORedo) = t.
 Proof. intros. reflexivity. Qed.
 
 Example C07_example :
-  let ops := [OCmd (T "ello") false; OCmd (T "aello") true; OCmd (T "abello") true;
-              OCmd (T "abello") false; OUndo; OUndo; ORedo] in
+  let ops := [OCmd None (T "ello") false; OCmd None (T "aello") true; OCmd None (T "abello") true;
+              OCmd None (T "abello") false; OUndo; OUndo; ORedo] in
   u_buf (urun (T "hello") ops) = T "ello" /\ length (u_redo (urun (T "hello") ops)) = 1%nat.
 Proof. vm_compute. split; reflexivity. Qed.
 
